@@ -20,4 +20,15 @@ TEXT = {
                       "truncation when 2k-p>65535) is outside the theorem's guard and replayed on the real code each run.",
         "technique": "Lean 4 proof (loop invariant) + generated-constant tie + differential correspondence with executable predicate",
     },
+    "C08": {
+        "level_text": "Theorems C08_pieces_exact / C08_pieces_cover (for all reads, k, p<=k, permutations, containers): every piece returned by the "
+                      "model of msp_sequence is the exact substring at consecutive offsets overlapping by k-1, its extension byte is exactly "
+                      "the two flanking bases (none at a read end), and the pieces' k-mers in order are the read's k-mers, each once "
+                      "(corollary of the C07 theorem). The bucket clause (same k-mer => same bucket, in either strand) is stated in Lean "
+                      "(C08_bucket_pure_full) but NOT yet proved: it is decided by evaluating the reference function bucketOf on the real "
+                      "crate's pieces over generated read sets with planted shared k-mers.",
+        "design_ref": "DESIGN.md section 6, C08",
+        "level_note": COMMON_NOTE + "Partial: the bucket-purity theorem is not yet proved (exploration only for that clause).",
+        "technique": "Lean 4 proof (corollary of C07 + list algebra) + differential correspondence with executable predicate; bucket clause by execution only",
+    },
 }
